@@ -1,6 +1,8 @@
 package cli
 
 import (
+	"runtime"
+
 	vrt "src.elv.sh/pkg/zzvrt"
 )
 
@@ -9,6 +11,7 @@ import (
 // with the loop; every schedule within the preemption bound is explored.
 func VerifC32(nops int) {
 	lp := newLoop()
+	returned := false
 	var handled []int
 	var redraws []redrawFlag
 	inHandler := false
@@ -16,15 +19,19 @@ func VerifC32(nops int) {
 		vrt.Assert(!inHandler, "events are handled one at a time")
 		inHandler = true
 		handled = append(handled, e.(int))
+		runtime.Gosched() // handling takes time: other goroutines may run meanwhile
 		inHandler = false
 	})
 	lp.RedrawCb(func(f redrawFlag) {
 		vrt.Assert(!inHandler, "no redraw while an event is being handled")
 		redraws = append(redraws, f)
+		if f&finalRedraw != 0 {
+			returned = true // requests arriving from now on come too late to be served
+		}
+		runtime.Gosched() // drawing takes time: requests may arrive meanwhile
 	})
 	var sent []int
 	firstReturn := ""
-	returned := false
 	type req struct {
 		at   int // number of redraws started when the request completed
 		full bool
